@@ -20,9 +20,11 @@ MODULE, CFG = 'OciUnifyConcTrace', 'OciUnifyConcTrace.cfg'
 ENTRIES = {'reader': 3, 'resolve': 2}
 
 
-def run_conc(ctx, vh, out, sched=None, n=1, entries='all', part=0, parts=1, replay=None, seed=None, racelog=None):
+def run_conc(ctx, vh, out, sched=None, n=1, entries='all', part=0, parts=1, replay=None, seed=None, racelog=None, variants=None):
     args = ['unifyconc', '-out', out, '-n', str(n), '-entries', entries, '-part', str(part), '-parts', str(parts),
             '-seed', str(ctx.seed if seed is None else seed)]
+    if variants:
+        args += ['-variants', variants]
     if sched:
         args += ['-sched', sched]
     if replay:
@@ -37,7 +39,7 @@ def dedupe(ctx, traces, out):
     """Runs with identical recorded text are validated once (validation is a function of the text)."""
     # the kind of a failing member's error and error messages are not read by the specification
     # (a failure is a failure): runs that differ only there are validated once, too
-    strip = re.compile(r'"errkind":\[[^\]]*\],?|"msg":"(?:[^"\\]|\\.)*",?')
+    strip = re.compile(r'"errkind":\[[^\]]*\],?|"spin":\d+,?|"msg":"(?:[^"\\]|\\.)*",?')
     seen = {}
     uniq = {}
     hdr = None
@@ -87,6 +89,8 @@ def count(ctx, uniq):
             if op == 'tau':
                 continue
             if op == 'reset':
+                if e['variant'] == 'race':
+                    sit['runs with the cancellation racing the winning answer'] = sit.get('runs with the cancellation racing the winning answer', 0) + mult
                 k = 'runs of ' + e['entry']
             elif op == 'ret':
                 k = 'returned ' + e['ret']
@@ -151,6 +155,7 @@ def run(ctx):
                                       wall_s=round(r['wall'], 1), what='%d distinct complete environment schedules exported' % len(scheds)))
     ctx.cov['schedules_exported_by_tlc'] = len(scheds)
     nall = len(scheds)
+    allscheds = scheds
     if quick:
         # every schedule in which the caller does not read; of those in which it reads (a piece / to EOF, at every
         # position between the return and Close) one in four, which ones rotating with the seed; thorough: all
@@ -166,21 +171,31 @@ def run(ctx):
     parts = 4 if quick else min(16, vlib.NCPU)
     ent = 'one' if quick else 'all'
     isread = lambda s: bool({'read', 'readpart'} & set(s['acts']))
-    groups = [('a', scheds, 1)] if quick else [('a', [s for s in scheds if not isread(s)], 50), ('b', [s for s in scheds if isread(s)], 8)]
+    groups = [('a', scheds, 1, None)] if quick else [('a', [s for s in scheds if not isread(s)], 50, None), ('b', [s for s in scheds if isread(s)], 8, None)]
+    # the caller's cancellation racing with the winning answer: schedules (reader style, no reads) in which a successful
+    # member's return is directly followed by `cancel`; the cancellation is fired by a busy-waiting goroutine on the
+    # member's signal, with 40 different delays, many times over
+    def racy(s):
+        a = s['acts']
+        return s['style'] == 'reader' and not isread(s) and any(
+            a[i] in ('rel0', 'rel1') and a[i + 1] == 'cancel' and s['out'][int(a[i][3])] == 'ok' for i in range(len(a) - 1))
+    rs = [s for s in allscheds if racy(s)]
+    rs = [rs[(ctx.seed * 7 + k * max(1, len(rs) // 12)) % len(rs)] for k in range(12)] if quick else rs
+    groups.append(('r', rs, 80 if quick else 120, 'race'))
     traces = []
     nruns = expect = 0
-    for name, group, reps in groups:
+    for name, group, reps, variants in groups:
         sp = os.path.join(sd, 'sched_%s.jsonl' % name)
         with open(sp, 'w') as f:
             for s in group:
                 f.write(json.dumps(s) + '\n')
         outs = [os.path.join(td, 'conc_%s%02d.ndjson' % (name, p)) for p in range(parts)]
         with cf.ThreadPoolExecutor(max_workers=parts) as ex:
-            futs = [ex.submit(run_conc, ctx, vh, outs[p], sp, reps, ent, p, parts, None, None,
-                              None if quick else os.path.join(td, 'race')) for p in range(parts)]
+            futs = [ex.submit(run_conc, ctx, vh, outs[p], sp, reps, 'all' if variants else ent, p, parts, None, None,
+                              None if quick else os.path.join(td, 'race'), variants) for p in range(parts)]
             nruns += sum(f.result()['scenarios'] for f in futs)
         traces += outs
-        expect += sum((1 if quick else ENTRIES[s['style']]) * 2 for s in group) * reps
+        expect += sum((ENTRIES[s['style']] if variants else (1 if quick else ENTRIES[s['style']]) * 2) for s in group) * reps
     ctx.log('executed %d runs on the real code' % nruns)
     if nruns != expect:
         raise vlib.Machinery('harness executed %d of %d runs' % (nruns, expect))
@@ -206,7 +221,7 @@ def run(ctx):
                         'TLC, pcal and the Json/IOUtils community modules']
     return vlib.finish(ctx, rule='TLC exports every complete environment schedule of OciUnifyConc (outcomes x modes x style x order of member returns, caller cancel, '
                        'caller close); each is replayed on ociunify.New(fake0, fake1, ReadConcurrent) for GetBlob, GetBlobRange, GetManifest (reader style) or '
-                       'ResolveBlob, ResolveManifest (resolve style), once waiting for the system to react after each action and once not; the trace holds the actions '
+                       'ResolveBlob, ResolveManifest (resolve style), once waiting for the system to react after each action and once not; schedules in which the caller cancels right behind a successful answer are in addition run many times with the cancellation fired by a busy-waiting goroutine on a signal the member gives just before it returns (40 delays); the trace holds the actions '
                        'performed and the observations (answer returned and by which member - the error of a failing member is generic, not-found, or its own context.Canceled / DeadlineExceeded -, context state of the members main heard from, reader close counts, '
                        'after the caller read a piece / to EOF: context of the chosen member unchanged and reader not closed, after Close: the context of the member was live inside the Close of its own reader, closed once, the scripted Close error of the reader passed through, context cancelled whatever Close returned, at quiescence: every reader/context and the number of goroutines inside ociunify); TLC accepts '
                        'a run iff some behaviour of the model with that order of environment actions shows exactly these observations')
@@ -217,7 +232,7 @@ def replay(ctx, path):
     rd = ctx.sub('replay')
     out = os.path.join(rd, 'trace.ndjson')
     # schedule-dependent defects need not show on every run: repeat, under the race detector
-    run_conc(ctx, vh, out, n=25, replay=path, racelog=os.path.join(rd, 'race'))
+    run_conc(ctx, vh, out, n=100, replay=path, racelog=os.path.join(rd, 'race'))
     ut = os.path.join(rd, 'unique.ndjson')
     dedupe(ctx, [out], ut)
     add_race_events(rd, ut)
@@ -226,5 +241,5 @@ def replay(ctx, path):
     if len(ctx.violations) > before:
         vlib.report_violations(ctx, before)
         return 1
-    print('replay accepted (25 repetitions): the stored schedule no longer violates %s' % ctx.pid)
+    print('replay accepted (100 repetitions): the stored schedule no longer violates %s' % ctx.pid)
     return 0
